@@ -195,7 +195,15 @@ def handler_specs(ops):
             if p:
                 parts = p.split(":")
                 params.append(parts)
-        specs[f["name"]] = dict(params=params, prio=f.get("prio", "m"), index=i, accepted=any(l == "ret ok" for l in obs))
+        # registered: the call returned `ok`, or it unwound (a panic in a receiver of the AddHandler notification, which is
+        # sent after the handler has been added) and the implementation's own `reg` line lists the handler afterwards
+        listed = False
+        for l in obs:
+            m = re.match(r"reg c:\S* e:\S* h:(\S*) stale=", l)
+            if m and f["name"] in [x.split("=")[0] for x in m.group(1).split(",")]:
+                listed = True
+        specs[f["name"]] = dict(params=params, prio=f.get("prio", "m"), index=i,
+                                accepted=any(l == "ret ok" for l in obs) or listed)
     return specs
 
 
